@@ -18,10 +18,17 @@ use std::{
     ffi::OsString,
     fs,
     io::{Read, Write},
-    os::unix::{ffi::OsStringExt, process::ExitStatusExt},
+    os::unix::{
+        ffi::{OsStrExt, OsStringExt},
+        fs::OpenOptionsExt,
+        process::ExitStatusExt,
+    },
     path::PathBuf,
     process::{Command, Stdio},
-    sync::atomic::{AtomicUsize, Ordering},
+    sync::{
+        atomic::{AtomicBool, AtomicUsize, Ordering},
+        Arc,
+    },
     thread,
     time::{Duration, Instant},
 };
@@ -458,6 +465,10 @@ fn hooks(_op: &str, _input: &Value) -> R {
 
 static CLI_SEQ: AtomicUsize = AtomicUsize::new(0);
 
+extern "C" {
+    fn mkfifo(path: *const std::os::raw::c_char, mode: u32) -> i32;
+}
+
 fn cli(input: &Value) -> R {
     let bin = env::var("HDW_BIN").map_err(|_| "HDW_BIN not set")?;
     let tmp = PathBuf::from(env::var("HDW_TMP").map_err(|_| "HDW_TMP not set")?);
@@ -475,6 +486,19 @@ fn cli_in(input: &Value, bin: &str, dir: &PathBuf) -> R {
         for (name, spec) in files {
             let path = dir.join(name);
             fs::write(&path, doc::bytes(spec)?).map_err(|e| e.to_string())?;
+            paths.insert(name.clone(), path);
+        }
+    }
+    // "fifos": inputs delivered through a named pipe (a path that is not a regular file); "@F:name" names them too
+    let mut fifo_data = Vec::new();
+    if let Some(fifos) = input.get("fifos").and_then(Value::as_object) {
+        for (name, spec) in fifos {
+            let path = dir.join(name);
+            let c = std::ffi::CString::new(path.as_os_str().as_bytes()).map_err(|e| e.to_string())?;
+            if unsafe { mkfifo(c.as_ptr(), 0o600) } != 0 {
+                return Err(format!("mkfifo {}", path.display()));
+            }
+            fifo_data.push((path.clone(), doc::bytes(spec)?));
             paths.insert(name.clone(), path);
         }
     }
@@ -558,6 +582,32 @@ fn cli_in(input: &Value, bin: &str, dir: &PathBuf) -> R {
             let _ = pipe.write_all(&data[pos..]);
         })
     });
+    // one writer per named pipe: opens it once the child has it open for reading, gives up when the child is gone
+    let child_done = Arc::new(AtomicBool::new(false));
+    let fifo_writers = fifo_data
+        .into_iter()
+        .map(|(path, data)| {
+            let done = child_done.clone();
+            thread::spawn(move || {
+                let mut pipe = loop {
+                    // O_NONBLOCK: opening for writing fails with ENXIO while nobody reads
+                    match fs::OpenOptions::new().write(true).custom_flags(0o4000).open(&path) {
+                        Ok(f) => break f,
+                        Err(_) if done.load(Ordering::SeqCst) => return,
+                        Err(_) => thread::sleep(Duration::from_millis(1)),
+                    }
+                };
+                let mut pos = 0;
+                while pos < data.len() && !done.load(Ordering::SeqCst) {
+                    match pipe.write(&data[pos..]) {
+                        Ok(n) => pos += n,
+                        Err(e) if e.kind() == std::io::ErrorKind::WouldBlock => thread::sleep(Duration::from_millis(1)),
+                        Err(_) => return,
+                    }
+                }
+            })
+        })
+        .collect::<Vec<_>>();
     let mut so = child.stdout.take().unwrap();
     let mut se = child.stderr.take().unwrap();
     let out_t = thread::spawn(move || {
@@ -585,6 +635,10 @@ fn cli_in(input: &Value, bin: &str, dir: &PathBuf) -> R {
         }
     };
     let wall_ms = start.elapsed().as_millis() as u64;
+    child_done.store(true, Ordering::SeqCst);
+    for w in fifo_writers {
+        let _ = w.join();
+    }
     if let Some(w) = writer {
         let _ = w.join();
     }
